@@ -84,7 +84,7 @@ def run(tier, seed):
             for e in ("challenge", "ts_challenge", "ts_validate", "unwrap"):
                 plans.append({"entry": e, "raw": s})
         for e in ("ts_challenge", "ts_validate"):
-            for n in (70, 600, 4000, 16000):
+            for n in (70, 600, 4000, 16000, 32700):
                 plans.append({"entry": e, "raw": [0x30, 0x80] * n})
                 plans.append({"entry": e, "raw": [0x30, 0x80, 0xa0, 0x80] * (n // 2)})
         for i, p in enumerate(plans):
@@ -109,7 +109,7 @@ def run(tier, seed):
         lines = [l for l in open(trace).read().split("\n") if l.strip()]
         runs = core.split_runs(lines)
         tested = []
-        if not rejects:
+        if not rejects and not v.violations:
             sl = [lines[s:e] for (s, e) in runs if json.loads(lines[s]).get("run") == "selftest"][0]
             def panic(evs): evs[1]["res"] = "panic"; return evs
             def alloc(evs): evs[1]["peak"] = 10 ** 9; return evs
